@@ -260,8 +260,20 @@ def _copy(ev):
     return dict(ev)
 
 
+def _producer_items(items):
+    """the dictionaries the producer yields: equal events of a script are ONE dict object yielded again (a producer
+    that keeps a template event and yields it repeatedly) - what the client reads may not depend on that"""
+    cache, out = {}, []
+    for it in items:
+        if it == "P":
+            continue
+        key = tuple(it.items())
+        out.append(cache.setdefault(key, dict(it)))
+    return out
+
+
 def run_wsgi(items, charset):
-    events = [_copy(it) for it in items if it != "P"]
+    events = _producer_items(items)
     script = ["P" if it == "P" else "E" for it in items]
     saved = wsgi_responses.queue
     wsgi_responses.queue = _ScriptedQueueModule(script)
@@ -291,7 +303,7 @@ def run_wsgi(items, charset):
 
 
 def run_asgi(items, charset):
-    events = [_copy(it) for it in items if it != "P"]
+    events = _producer_items(items)
     script = ["P" if it == "P" else "E" for it in items]
     saved = asgi_responses.asyncio
     asgi_responses.asyncio = _ScriptedAsyncio(script)
@@ -724,6 +736,9 @@ def cases(rng, tier):
             yield mk_stream(iface, cs, [])
             yield mk_stream(iface, cs, ["P"])
             yield mk_stream(iface, cs, [{}, "P", {"data": ""}, {"data": "\n"}, "P", "P", {"event": "e"}])
+            tick = {"event": "tick", "data": "x\ny", "id": "7"}
+            yield mk_stream(iface, cs, [tick, tick, tick])
+            yield mk_stream(iface, cs, [tick, "P", {"data": "other"}, tick])
     # --- random single events
     n_ev = 60000 if thorough else 8000
     for _ in range(n_ev):
